@@ -1,12 +1,16 @@
 package staking
 
-// Several precompile calls inside ONE Ethereum transaction (C11): a straight-line contract at the address of the keyed
-// account "pmulti" performs 2..3 staking-precompile calls in order, each with CALL, DELEGATECALL or CALLCODE (the
-// precompile's caller is pmulti in every case), and does not revert when one of them fails.  On chain B the native
-// submissions of the calls that must succeed go into one Cosmos transaction signed by pmulti.  This reaches what a
-// single call per transaction cannot: a call that fails in the middle of a transaction must undo exactly its own
-// effects, later calls see the earlier calls' effects, and the logs of a call must come from ITS new module events
-// only (the event manager already holds the earlier calls' events).
+// Several precompile calls inside ONE Ethereum transaction (C11): a straight-line contract at the address of a keyed
+// account ("pmulti": no delegations at the start, "pmulti2": delegations with rewards in several denominations) performs
+// 2..4 staking-precompile calls in order - state-changing calls with CALL, DELEGATECALL or CALLCODE, views with any
+// opcode, STATICCALL included; the precompile's caller is the contract in every case - does not revert when one of them
+// fails, and returns every call's success and first returned word (hx/c11_multi.go).  On chain B the native
+// submissions of the calls that must succeed go into one Cosmos transaction signed by the same account; they are
+// dry-run one by one on a branch of B's state, and the native queriers are asked BETWEEN them, which gives the
+// expected answer of every view at its point of the transaction.  This reaches what a single call per transaction
+// cannot: a call that fails in the middle of a transaction must undo exactly its own effects, later calls and views see
+// the earlier calls' effects (and nothing else: whatever the precompile object or the EVM instance keeps between two
+// calls shows here), and the logs of a call must come from ITS module events only.
 
 import (
 	"bytes"
@@ -16,7 +20,10 @@ import (
 	"strings"
 
 	sdk "github.com/cosmos/cosmos-sdk/types"
+	"github.com/ethereum/go-ethereum/common"
 	"github.com/stretchr/testify/require"
+
+	itutiltypes "github.com/EscanBE/evermint/v12/integration_test_util/types"
 
 	. "verifharness/hx"
 )
@@ -36,7 +43,7 @@ func (tw *twin) nativeSideOf(ctx sdk.Context, op cpcOp, callerAcc sdk.AccAddress
 	ns := nativeSide{totalZero: true}
 	if rw, err := rewardsOf(tw.B, ctx, callerAcc); err == nil {
 		for _, x := range rw.Rewards {
-			ns.rwList = append(ns.rwList, fmt.Sprintf("(%s, %s)", zOf(tw.valBytes(tw.B, x.ValidatorAddress)), CqZ(x.Reward.AmountOf(tw.bond).TruncateInt().BigInt())))
+			ns.rwList = append(ns.rwList, fmt.Sprintf("(%s, %s)", zOf(tw.valBytes(tw.B, x.ValidatorAddress)), tw.decCoins(x.Reward).coq()))
 		}
 		ns.totalZero = rw.Total.IsZero()
 	}
@@ -88,36 +95,131 @@ type multiDesc struct {
 var multiOps = []struct {
 	op   byte
 	name string
-}{{OpCALL, "CALL"}, {OpDELEGATECALL, "DELEGATECALL"}, {OpCALLCODE, "CALLCODE"}}
+}{{OpCALL, "CALL"}, {OpDELEGATECALL, "DELEGATECALL"}, {OpCALLCODE, "CALLCODE"}, {OpSTATICCALL, "STATICCALL"}}
+
+// one precompile call of a multi-call transaction
+type mItem struct {
+	isView bool
+	opName string
+	opcode byte
+	// state-changing call
+	op cpcOp
+	ns nativeSide
+	// view
+	acct, val common.Address
+	nv        nativeViews
+	vc        viewCall
+}
+
+// kinds (genOpKind) of the methods that change the rewards of their caller when it has any: delegate, undelegate,
+// redelegate, withdrawReward, withdrawRewards, transfer
+var rewardChangingKinds = []int{0, 20, 35, 45, 45, 55, 55, 65}
+
+// reward views (indices into viewCalls) come first
+var viewWeights = []int{2, 2, 2, 3, 3, 3, 4, 4, 4, 0, 0, 1, 1}
+
+func (tw *twin) genViewItem(r *Rng, dry sdk.Context, caller *itutiltypes.TestAccount, which int, self bool) mItem {
+	a := caller
+	if !self && r.Chance(25) {
+		a = tw.tracked[r.Intn(len(tw.tracked))]
+	}
+	v, _ := tw.pickOwnVal(r, a.GetCosmosAddress())
+	// a validator the account is delegated to AT THIS POINT of the transaction, if any
+	if dels, err := tw.B.App.StakingKeeper.GetAllDelegatorDelegations(dry, a.GetCosmosAddress()); err == nil && len(dels) > 0 && r.Chance(70) {
+		v = common.BytesToAddress(tw.valBytes(tw.B, dels[r.Intn(len(dels))].ValidatorAddress))
+	}
+	if which < 0 {
+		which = viewWeights[r.Intn(len(viewWeights))]
+	}
+	nv := tw.nativeViewsOf(tw.B, dry, a.GetCosmosAddress(), v)
+	k := multiOps[r.Intn(len(multiOps))]
+	return mItem{isView: true, opName: k.name, opcode: k.op, acct: a.GetEthAddress(), val: v, nv: nv, vc: tw.viewCalls(nv, a.GetEthAddress(), v)[which]}
+}
+
+func (tw *twin) genCallItem(r *Rng, dry sdk.Context, caller *itutiltypes.TestAccount, kind int) mItem {
+	// arguments are chosen against chain B's committed state (genOp reads it): earlier calls of the same transaction
+	// may have invalidated them, which is part of the point
+	op := tw.genOpKind(r, caller, kind)
+	ns := tw.nativeSideOf(dry, op, caller.GetCosmosAddress())
+	k := multiOps[r.Intn(3)] // never STATICCALL: a state-changing method under STATICCALL is C12's business
+	return mItem{opName: k.name, opcode: k.op, op: op, ns: ns}
+}
 
 func (tw *twin) multiStep(r *Rng, side *Sidecar, cases *CasesFile, idx *int, seq, step int) {
 	t := tw.t
 	sender := tw.actors[r.Intn(len(tw.actors))]
+	structured := r.Chance(55)
 	caller := tw.proxy["pmulti"]
+	if structured && r.Chance(85) || !structured && r.Chance(50) {
+		caller = tw.proxy["pmulti2"]
+	}
 	callerAcc := caller.GetCosmosAddress()
 	require.Equal(t, tw.A.C11Price().String(), tw.B.C11Price().String(), "gas prices of the twin chains diverged")
 
-	n := 2 + r.Intn(2)
 	qB := tw.B.QueryCtx()
 	dry, _ := qB.CacheContext()
-	var ops []cpcOp
-	var nss []nativeSide
-	var calls []NodeCall
-	var opNames []string
+	var items []mItem
+	shape := "random"
+	if structured {
+		// a view of the caller's own position (mostly a reward view), a call that changes its stake and rewards, the same view
+		// (or another one) again
+		shape = "view-change-view"
+		which := viewWeights[r.Intn(len(viewWeights))]
+		first := tw.genViewItem(r, dry, caller, which, true)
+		items = append(items, first)
+		items = append(items, tw.genCallItem(r, dry, caller, rewardChangingKinds[r.Intn(len(rewardChangingKinds))]))
+		if r.Chance(40) {
+			which = viewWeights[r.Intn(len(viewWeights))]
+		}
+		again := mItem{isView: true, acct: first.acct, val: first.val}
+		k := multiOps[r.Intn(len(multiOps))]
+		again.opName, again.opcode = k.name, k.op
+		again.nv = tw.nativeViewsOf(tw.B, dry, callerAcc, again.val)
+		again.vc = tw.viewCalls(again.nv, again.acct, again.val)[which]
+		items = append(items, again)
+		if r.Chance(40) {
+			if r.Chance(50) {
+				items = append(items, tw.genCallItem(r, dry, caller, r.Intn(100)))
+			} else {
+				items = append(items, tw.genViewItem(r, dry, caller, -1, false))
+			}
+		}
+	} else {
+		n := 2 + r.Intn(3)
+		calls := 0
+		var last *cpcOp
+		for i := 0; i < n; i++ {
+			if calls < 3 && r.Chance(60) {
+				if last != nil && r.Chance(30) {
+					// the very same call once more (a contract looping over its own calls): same calldata, its native
+					// submission evaluated on the state the first one left
+					shape = "random+repeated-call"
+					k := multiOps[r.Intn(3)]
+					items = append(items, mItem{opName: k.name, opcode: k.op, op: *last, ns: tw.nativeSideOf(dry, *last, callerAcc)})
+				} else {
+					items = append(items, tw.genCallItem(r, dry, caller, r.Intn(100)))
+				}
+				last = &items[len(items)-1].op
+				calls++
+			} else {
+				items = append(items, tw.genViewItem(r, dry, caller, -1, false))
+			}
+		}
+	}
+	side.Count("multi:shape:" + shape)
+
+	var calls []C11Call
 	var msgs []sdk.Msg
 	var nativeStr []string
-	for i := 0; i < n; i++ {
-		// arguments are chosen against chain B's committed state (genOp reads it): earlier calls of the same transaction
-		// may have invalidated them, which is part of the point
-		op := tw.genOp(r, caller)
-		ns := tw.nativeSideOf(dry, op, callerAcc)
-		ops, nss = append(ops, op), append(nss, ns)
-		k := multiOps[r.Intn(len(multiOps))]
-		opNames = append(opNames, k.name)
-		calls = append(calls, NodeCall{Op: k.op, Target: tw.cpc, Payload: op.payload, Leaf: true, Mask: new(big.Int).Lsh(big.NewInt(1), uint(i)),
-			Gas: 1_100_000}) // a failing precompile call burns all the gas it was given: a fixed share, above every method's RequireGas
-		if ns.expOK {
-			for _, en := range ns.script {
+	for _, it := range items {
+		if it.isView {
+			calls = append(calls, C11Call{Op: it.opcode, Target: tw.cpc, Payload: it.vc.data, Gas: 150_000})
+			continue
+		}
+		// a failing precompile call burns all the gas it was given: a fixed share, above every method's RequireGas
+		calls = append(calls, C11Call{Op: it.opcode, Target: tw.cpc, Payload: it.op.payload, Gas: 900_000})
+		if it.ns.expOK {
+			for _, en := range it.ns.script {
 				msgs = append(msgs, en.msg)
 				nativeStr = append(nativeStr, en.coqM)
 			}
@@ -125,7 +227,7 @@ func (tw *twin) multiStep(r *Rng, side *Sidecar, cases *CasesFile, idx *int, seq
 	}
 
 	// chain A
-	tw.A.SetCode(caller.GetEthAddress(), BuildNode(calls))
+	tw.A.SetCode(caller.GetEthAddress(), C11BuildMulti(calls))
 	qA := tw.A.QueryCtx()
 	preA := map[string]string{}
 	for _, a := range tw.tracked {
@@ -136,8 +238,8 @@ func (tw *twin) multiStep(r *Rng, side *Sidecar, cases *CasesFile, idx *int, seq
 		// the whole transaction died: legitimate only where a native message server panics as well (natively the whole
 		// transaction dies, too); then nothing happens on either chain
 		nativePanics := false
-		for _, ns := range nss {
-			for _, en := range ns.script {
+		for _, it := range items {
+			for _, en := range it.ns.script {
 				nativePanics = nativePanics || en.panicked
 			}
 		}
@@ -155,8 +257,9 @@ func (tw *twin) multiStep(r *Rng, side *Sidecar, cases *CasesFile, idx *int, seq
 		return
 	}
 	require.Equal(t, uint64(1), res.Status, "the multi-call contract itself failed: %s", res.VmError)
-	require.Len(t, res.Ret, 32)
-	mask := new(big.Int).SetBytes(res.Ret)
+	require.Len(t, res.Ret, 32*(len(items)+1))
+	mask := new(big.Int).SetBytes(res.Ret[:32])
+	word := func(i int) *big.Int { return new(big.Int).SetBytes(res.Ret[32*(i+1) : 32*(i+2)]) }
 	logs, foreign := tw.decodeLogs(res.Logs)
 
 	// chain B
@@ -177,25 +280,48 @@ func (tw *twin) multiStep(r *Rng, side *Sidecar, cases *CasesFile, idx *int, seq
 	for _, l := range logs {
 		d.Logs = append(d.Logs, l.String())
 	}
-	var subTerms []string
-	okCount := 0
-	for i, op := range ops {
+	var subTerms, canon []string
+	okCount, changed := 0, false
+	for i, it := range items {
 		obs := mask.Bit(i) == 1
+		if it.isView {
+			var got *big.Int
+			if obs {
+				got = word(i)
+			}
+			w := it.vc
+			d.Calls = append(d.Calls, fmt.Sprintf("%s %s(%s,%s) native=%s observed=%s", it.opName, w.name, it.acct.Hex(), it.val.Hex(), strBig(w.want), strBig(got)))
+			subTerms = append(subTerms, "MView "+it.nv.viewCaseTerm(w, got))
+			canon = append(canon, fmt.Sprintf("%s %s ok=%v", it.opName, w.name, got != nil))
+			// the view reports the native query's number on the state AT THIS POINT of the transaction
+			if (got == nil) != (w.want == nil) || got != nil && got.Cmp(w.want) != 0 {
+				side.Hit("C11/staking/multi-call/view-differs-from-native-query-at-that-point/"+w.name, fmt.Sprintf("call %d (%s %s) of a multi-call transaction returned %s; the native query on the state after the native submissions of the calls before it gives %s", i, it.opName, w.name, strBig(got), strBig(w.want)), d)
+			}
+			pos := "before-any-change"
+			if changed {
+				pos = "after-a-change"
+			}
+			side.Count(fmt.Sprintf("multi:view:%s:%s:%s", w.name, it.opName, pos))
+			continue
+		}
+		op := it.op
 		if obs {
 			okCount++
+			changed = true
 		}
-		d.Calls = append(d.Calls, fmt.Sprintf("%s %s %s native_ok=%v observed_ok=%v", opNames[i], op.method, op.class, nss[i].expOK, obs))
-		subTerms = append(subTerms, tw.opCaseTerm(sender.GetEthAddress().Bytes(), "[HCall "+tw.pz("pmulti")+"]", op, nss[i], obs, false, nil))
+		d.Calls = append(d.Calls, fmt.Sprintf("%s %s %s native_ok=%v observed_ok=%v", it.opName, op.method, op.class, it.ns.expOK, obs))
+		canon = append(canon, fmt.Sprintf("%s %s %s ok=%v", it.opName, op.method, op.class, obs))
+		subTerms = append(subTerms, "MOp "+tw.opCaseTerm(sender.GetEthAddress().Bytes(), "[HCall "+zOf(caller.GetEthAddress().Bytes())+"]", op, it.ns, obs, obs && word(i).Cmp(big.NewInt(1)) == 0, nil))
 		// each call on its own: succeeds exactly when its native submission does
-		if obs != nss[i].expOK {
-			side.Hit("C11/staking/multi-call/outcome-differs-from-native/"+op.method, fmt.Sprintf("call %d (%s %s) of a multi-call transaction: precompile ok=%v, its native submission ok=%v", i, opNames[i], op.method, obs, nss[i].expOK), d)
+		if obs != it.ns.expOK {
+			side.Hit("C11/staking/multi-call/outcome-differs-from-native/"+op.method, fmt.Sprintf("call %d (%s %s) of a multi-call transaction: precompile ok=%v, its native submission ok=%v", i, it.opName, op.method, obs, it.ns.expOK), d)
 		}
 		if op.signedDelegator != nil && obs && (*op.signedDelegator != caller.GetEthAddress() || op.rec != "(Some "+zOf(op.signedDelegator.Bytes())+")") {
 			side.Hit("C11/staking/signed-message-accepted-without-delegators-signature-for-this-chain/"+op.method, "inside a multi-call transaction", d)
 		}
-		side.Count(fmt.Sprintf("multi:%s:%s:ok=%v", opNames[i], op.method, obs))
+		side.Count(fmt.Sprintf("multi:%s:%s:ok=%v", it.opName, op.method, obs))
 	}
-	side.Count(fmt.Sprintf("multi:calls=%d:succeeded=%d", n, okCount))
+	side.Count(fmt.Sprintf("multi:calls=%d:succeeded=%d", len(items), okCount))
 
 	// twin state
 	pa, ma := tw.projection(tw.A)
@@ -216,7 +342,7 @@ func (tw *twin) multiStep(r *Rng, side *Sidecar, cases *CasesFile, idx *int, seq
 			what = "module-store"
 		}
 		tw.diverged = true
-		side.Hit(fmt.Sprintf("C11/staking/multi-call/%s-differs-from-native", what), fmt.Sprintf("after a transaction with %d precompile calls the twin chains differ in %v", n, d.Diff), d)
+		side.Hit(fmt.Sprintf("C11/staking/multi-call/%s-differs-from-native", what), fmt.Sprintf("after a transaction with %d precompile calls the twin chains differ in %v", len(items), d.Diff), d)
 	}
 	// third parties
 	qA = tw.A.QueryCtx()
@@ -248,6 +374,6 @@ func (tw *twin) multiStep(r *Rng, side *Sidecar, cases *CasesFile, idx *int, seq
 		ls = append(ls, l.coq())
 	}
 	cases.Add(fmt.Sprintf("KMulti %s %s", CqList(subTerms), CqList(ls)))
-	side.Case(*idx, fmt.Sprintf("multi/%s", strings.Join(d.Calls, "|")), len(msgs) > 0, d)
+	side.Case(*idx, fmt.Sprintf("multi/%s", strings.Join(canon, "|")), len(msgs) > 0, d)
 	*idx++
 }
